@@ -39,7 +39,7 @@ class Contract:
     def __init__(self, qualname, types=None, requires=None, ensures=None, returns=None, reads=None,
                  modifies=None, raises="never", props=None, result_type=None, native_effect=None,
                  assumed=False, note=None, alternatives=None, setup=None, inline_in_callers=False,
-                 hints=None, lets=None, use_at_calls=True, pure=False):
+                 hints=None, lets=None, use_at_calls=True, pure=False, ghost=None, cost=None):
         self.qualname = qualname
         self.types = types or {}
         self.requires = requires or {}
@@ -56,6 +56,8 @@ class Contract:
         self.setup = setup
         self.hints = hints or []
         self.lets = lets or {}
+        self.ghost = ghost or {}  # ghost parameters (symbols the contract is universally quantified over)
+        self.cost = cost
         self.pure = pure  # True: the call must leave every object that existed before it unchanged
         self.use_at_calls = use_at_calls  # False: proved against its body, but callers execute the real body
 
@@ -919,3 +921,30 @@ def _isstr(ev, node):
 def _isdictobj(ev, node):
     v = ev.e(node.args[0])
     return isinstance(v, Ref) and isinstance(ev.heap[v.oid], DictP)
+
+
+@specfn("Has")
+def _has(ev, node):
+    """Has(candles, j, name): the key is present in one of the two per-candle dicts (even with value None)"""
+    ser, j, key = [ev.e(a) for a in node.args]
+    p = ev.heap[ser.oid]
+    jt = to_int_term(j)
+    return wrap_bool(z3.Or(p.has("I", key, jt), p.has("S", key, jt)))
+
+
+@specfn("HasAny")
+def _hasany(ev, node):
+    """HasAny(candles, j, names): some name of the (concrete) set is present on candle j"""
+    ser, j, names = [ev.e(a) for a in node.args]
+    p = ev.heap[ser.oid]
+    jt = to_int_term(j)
+    items = ev.heap[names.oid].items if isinstance(names, Ref) else [names]
+    return wrap_bool(zor(*[z3.Or(p.has("I", k, jt), p.has("S", k, jt)) for k in items]) if items else False)
+
+
+@specfn("SetEq")
+def _seteq(ev, node):
+    a, b = ev.e(node.args[0]), ev.e(node.args[1])
+    ia = list(ev.heap[a.oid].items) if isinstance(a, Ref) else list(a)
+    ib = list(ev.heap[b.oid].items) if isinstance(b, Ref) else list(b)
+    return len(ia) == len(ib) and all(any(x == y for y in ib) for x in ia)
